@@ -175,6 +175,25 @@ class SymH:
         from . import stubs
         self.undo.append(stubs.install(self, which, **opts))
 
+    def expo(self, d):
+        """exp of a distance-like value (LogReal -> field element; a plain number 0 -> 1)"""
+        if hasattr(d, 'expo'):
+            return d.expo()
+        if isinstance(d, np.ndarray):
+            out = np.empty(d.shape, dtype=object)
+            for idx in np.ndindex(*d.shape):
+                out[idx] = self.expo(d[idx])
+            return out if out.shape else out[()]
+        if isinstance(d, (int, float, np.integer, np.floating)):
+            if d == 0:
+                return F.const(1)
+            import math
+            if math.isnan(d):
+                raise Inconclusive("distance evaluated to a NaN constant")
+            f = Fraction(math.exp(float(d)))
+            return F.const(f)
+        raise Inconclusive(f"exp of {type(d).__name__}")
+
     # helpers usable in both modes
     @staticmethod
     def dot(a, b):
@@ -298,6 +317,9 @@ class ConcH:
         self.notes.append(txt)
 
     dot = staticmethod(SymH.dot)
+
+    def expo(self, d):
+        return np.exp(d)
 
     def stub(self, which, **opts):
         from . import stubs
